@@ -108,6 +108,7 @@ type c13World struct {
 	crashAt [c13MaxLives - 1]int
 	lives   int // number of stops so far
 	effects int // effects in the current life
+	perLife []int // effects of the finished lives
 
 	// arbitrator log
 	scope     bool // the scope bucket exists
@@ -829,8 +830,10 @@ func (w *c13World) life() (crashed bool) {
 func (w *c13World) run() {
 	for {
 		if !w.life() {
+			w.perLife = append(w.perLife, w.effects)
 			return
 		}
+		w.perLife = append(w.perLife, w.effects)
 		w.lives++
 		w.effects = 0
 	}
@@ -1062,6 +1065,8 @@ func c13Check(a, b *c13World) {
 // --------------------------------------------------------------- entry ----
 
 func c13Config() {
+	//vMerge("(*github.com/lightningnetwork/lnd/contractcourt.ChannelArbitrator).shouldGoOnChain")
+	//vMerge("(*github.com/lightningnetwork/lnd/contractcourt.ChannelArbitrator).isPreimageAvailable")
 	vGoInline("(*github.com/lightningnetwork/lnd/contractcourt.ChannelArbitrator).launchResolvers$1")
 	vNoop("(*github.com/lightningnetwork/lnd/contractcourt.ChannelArbitrator).resolveContract")
 	vAssumption("fakes: ArbitratorLog (state, resolutions, commit set through the real encodeCommitSet/decodeCommitSet, unresolved contracts through the resolvers' real Encode / new...FromReader), ArbChannel, MarkCommitmentBroadcasted, MarkChannelClosed, PublishTx, DeliverResolutionMsg, PutFinalHtlcOutcome, NotifyChannelResolved, FetchHistoricalChannel (always found), Sweeper, HtlcNotifier, PreimageDB, Registry, Clock: all succeed")
@@ -1174,44 +1179,64 @@ func c13NewScenario(withHtlcs bool) *c13Scenario {
 	for i := range sc.bestHeight {
 		sc.bestHeight[i] = vU32("bestHeight")
 		sc.dom = sc.dom && sc.bestHeight[i] < 1<<31
+		// time moves forward across restarts
+		if i > 0 {
+			sc.dom = sc.dom && sc.bestHeight[i] >= sc.bestHeight[i-1]
+		}
 	}
 
 	return sc
 }
 
+func c13NewWorld(sc *c13Scenario, crashAt ...int) *c13World {
+	w := &c13World{sc: sc}
+	for i := range w.crashAt {
+		w.crashAt[i] = -1
+	}
+	copy(w.crashAt[:], crashAt)
+
+	return w
+}
+
 // window: 0 = every stop point; 1 = only runs in which no restarted process
 // finds StateContractClosed in the log; 2 = only runs in which one does (see
 // NOTES.md, CANDIDATE FINDING).
-func c13Resume(withHtlcs bool, nCrash, maxEffects, window int) {
+func c13Resume(withHtlcs bool, nCrash, window int) {
 	c13Config()
 	sc := c13NewScenario(withHtlcs)
 	vAssume(sc.dom)
 
-	a := &c13World{sc: sc}
-	for i := range a.crashAt {
-		a.crashAt[i] = -1
-	}
-	b := &c13World{sc: sc}
-	for i := range b.crashAt {
-		b.crashAt[i] = -1
-	}
-	for i := 0; i < nCrash; i++ {
-		b.crashAt[i] = vChoice("crash", maxEffects)
-	}
-
+	// the uninterrupted run
+	a := c13NewWorld(sc)
 	a.run()
-	b.run()
-
-	// a stop index beyond the last effect of a life: nothing was interrupted
-	if b.lives != nCrash {
+	if a.perLife[0] == 0 {
+		// nothing happened: nothing to interrupt
 		vAssume(false)
 	}
+
+	// stop after the k1-th effect (every effect of the run is a stop point)
+	k1 := vChoice("crash", a.perLife[0])
+	b := c13NewWorld(sc, k1)
+	b.run()
+	vAssert(b.lives == 1, "the interrupted run stops exactly once")
+
+	if nCrash == 2 {
+		// ... and once more after the k2-th effect of the resumed process
+		if b.perLife[1] == 0 {
+			vAssume(false)
+		}
+		k2 := vChoice("crash", b.perLife[1])
+		b = c13NewWorld(sc, k1, k2)
+		b.run()
+		vAssert(b.lives == 2, "the interrupted run stops exactly twice")
+	}
+
 	if (window == 1 && b.bootCC) || (window == 2 && !b.bootCC) {
 		vAssume(false)
 	}
 	vObserve("finalState", uint8(a.state))
 	vObserve("fullyClosed", a.fullyClosed)
-	vObserve("lives", b.lives)
+	vObserve("effects", a.perLife[0])
 
 	c13Check(a, b)
 
@@ -1240,16 +1265,15 @@ func c13Resume(withHtlcs bool, nCrash, maxEffects, window int) {
 			vReach("resolver-outgoing-contest")
 		case resolverIncomingContest:
 			vReach("resolver-incoming-contest")
-		case resolverSuccess:
-			vReach("resolver-success")
 		}
 	}
 }
 
-func VerifC13Resume()     { c13Resume(false, 1, 14, 0) }
-func VerifC13Resume2()    { c13Resume(false, 2, 14, 0) }
-func VerifC13ResumeHtlc() { c13Resume(true, 1, 20, 1) }
+func VerifC13Resume()      { c13Resume(false, 1, 0) }
+func VerifC13Resume2()     { c13Resume(false, 2, 0) }
+func VerifC13ResumeHtlc()  { c13Resume(true, 1, 1) }
+func VerifC13ResumeHtlc2() { c13Resume(true, 2, 1) }
 
 // VerifC13RestartContractClosed: the stop points after which the restarted
 // process re-executes StateContractClosed with HTLCs in the commit set.
-func VerifC13RestartContractClosed() { c13Resume(true, 1, 20, 2) }
+func VerifC13RestartContractClosed() { c13Resume(true, 1, 2) }
